@@ -1145,7 +1145,7 @@ Proof.
   rewrite <- E. unfold py_dec. replace (v <? 0) with false by (symmetry; apply Z.ltb_ge; exact Hv).
   destruct (dec_fuel_ok v Hv) as (f & -> & Hf).
   destruct (dec_pos_parse f v 0 false [] Hf) as [k Hk]. rewrite app_nil_r in Hk. rewrite Hk.
-  cbn [parse_digits]. f_equal. lia.
+  cbn [parse_digits]. replace (0 * 10 ^ Z.of_nat k + v) with v by lia. reflexivity.
 Qed.
 
 Lemma digits_contains c s : (b2z c < 48 \/ 57 < b2z c) -> Forall (fun b => is_digit b = true) s -> contains c s = false.
@@ -1200,4 +1200,174 @@ Proof.
   - rewrite app_nil_r. destruct (bytes_eqb (skipn (length s - 4) s) str_pub) eqn:B.
     + apply bytes_eqb_eq in B. exfalso. apply (Hs eq_refl). exact B.
     + destruct s as [|b s'] eqn:E; [contradiction|]. rewrite <- E. unfold s. rewrite split_join by assumption. reflexivity.
+Qed.
+
+(* ---------------------------------------------------------------------------------------------- *)
+(* path ranges: subpaths_for_path_range enumerates exactly the product *)
+Inductive ritem : Type :=
+| RSingle (raw : bytes) (hard : option byte)       (* "raw" or "raw<c>" : passed through, hardened spelled H *)
+| RRange (lo hi : Z) (hard : option byte).         (* "lo-hi" or "lo-hi<c>" *)
+Definition hard_suffix (h : option byte) : bytes := match h with Some c => [c] | None => [] end.
+Definition hard_H (h : option byte) : bytes := match h with Some _ => [ch_H] | None => [] end.
+Definition render_item (it : ritem) : bytes :=
+  match it with
+  | RSingle raw h => raw ++ hard_suffix h
+  | RRange lo hi h => py_dec lo ++ ch_minus :: py_dec hi ++ hard_suffix h
+  end.
+Definition zrange_list (lo hi : Z) : list Z := zrange_aux (Z.to_nat (hi + 1 - lo)) lo.
+Definition expand_item (it : ritem) : list bytes :=
+  match it with
+  | RSingle raw h => [raw ++ hard_H h]
+  | RRange lo hi h => map (fun t => py_dec t ++ hard_H h) (zrange_list lo hi)
+  end.
+Definition hard_ok (h : option byte) : Prop := match h with Some c => is_hardening_char c = true | None => True end.
+Definition sep_free (s : bytes) : Prop := contains ch_comma s = false /\ contains ch_slash s = false.
+Definition item_ok (limit : Z) (it : ritem) : Prop :=
+  match it with
+  | RSingle raw h =>
+    hard_ok h /\ sep_free raw /\ contains ch_minus raw = false /\
+    match h with
+    | None => exists d, last_opt raw = Some d /\ is_hardening_char d = false
+    | Some c => byte_eqb c ch_comma = false /\ byte_eqb c ch_slash = false
+    end
+  | RRange lo hi h => hard_ok h /\ 0 <= lo /\ 0 <= hi /\ hi + 1 - lo <= limit
+  end.
+Definition render_component (comp : list ritem) : bytes := join ch_comma (map render_item comp).
+Definition render_range (comps : list (list ritem)) : bytes := join ch_slash (map render_component comps).
+Definition expand_component (comp : list ritem) : list bytes := concat (map expand_item comp).
+
+Lemma hardening_not_sep c : is_hardening_char c = true ->
+  byte_eqb c ch_comma = false /\ byte_eqb c ch_slash = false /\ byte_eqb c ch_minus = false.
+Proof.
+  unfold is_hardening_char. intros H. apply orb_true_iff in H. destruct H as [H|H]; [apply orb_true_iff in H; destruct H as [H|H]|];
+    apply byte_eqb_eq in H; subst c; repeat split; reflexivity.
+Qed.
+
+Lemma zrange_ok limit lo hi : hi + 1 - lo <= limit -> zrange limit lo hi = Ret (zrange_list lo hi).
+Proof.
+  intros H. unfold zrange, zrange_list. destruct (Z.ltb_spec hi lo).
+  - replace (Z.to_nat (hi + 1 - lo)) with 0%nat by lia. reflexivity.
+  - replace (limit <? hi + 1 - lo) with false by (symmetry; apply Z.ltb_ge; lia). reflexivity.
+Qed.
+
+Lemma hard_suffix_last s h : hard_ok h -> h <> None ->
+  exists c, h = Some c /\ last_opt (s ++ hard_suffix h) = Some c /\ is_hardening_char c = true /\
+            removelast (s ++ hard_suffix h) = s.
+Proof.
+  intros Hh N. destruct h as [c|]; [|contradiction]. exists c. cbn [hard_suffix].
+  rewrite last_opt_snoc, removelast_snoc. auto.
+Qed.
+
+Lemma range_item_ok limit it : item_ok limit it -> range_item limit (render_item it) = Ret (expand_item it).
+Proof.
+  destruct it as [raw h|lo hi h]; cbn [item_ok render_item expand_item].
+  - intros (Hh & _ & Hm & Hl). unfold range_item. destruct h as [c|].
+    + cbn [hard_suffix hard_H]. rewrite last_opt_snoc. cbn [hard_ok] in Hh. rewrite Hh, removelast_snoc.
+      rewrite (split_once_nosep _ _ Hm). reflexivity.
+    + cbn [hard_suffix hard_H]. rewrite !app_nil_r. destruct Hl as (d & -> & ->).
+      rewrite (split_once_nosep _ _ Hm). rewrite ?app_nil_r. reflexivity.
+  - intros (Hh & Hlo & Hhi & Hlim). unfold range_item.
+    destruct (py_dec_digits lo Hlo) as [NElo Flo]. destruct (py_dec_digits hi Hhi) as [NEhi Fhi].
+    assert (Mlo : contains ch_minus (py_dec lo) = false) by (apply digits_contains; [vm_compute; intuition congruence|exact Flo]).
+    destruct h as [c|].
+    + cbn [hard_suffix hard_H]. cbn [hard_ok] in Hh.
+      replace (py_dec lo ++ ch_minus :: py_dec hi ++ [c]) with ((py_dec lo ++ ch_minus :: py_dec hi) ++ [c])
+        by (rewrite <- app_assoc; reflexivity).
+      rewrite last_opt_snoc, Hh, removelast_snoc, (split_once_app _ _ _ Mlo).
+      rewrite (py_int_dec lo Hlo), (py_int_dec hi Hhi). cbn [bind]. rewrite (zrange_ok _ _ _ Hlim). reflexivity.
+    + cbn [hard_suffix hard_H]. rewrite app_nil_r.
+      assert (L : exists d, last_opt (py_dec lo ++ ch_minus :: py_dec hi) = Some d /\ is_digit d = true).
+      { destruct (last_opt_forall _ _ NEhi Fhi) as (d & Hd & Dd). exists d. split; [|exact Dd].
+        unfold last_opt in *. rewrite rev_app_distr. cbn [rev]. rewrite <- app_assoc.
+        destruct (rev (py_dec hi)) as [|x r]; [discriminate|]. injection Hd as ->. reflexivity. }
+      destruct L as (d & -> & Dd). rewrite (digit_not_hardening d Dd), (split_once_app _ _ _ Mlo).
+      rewrite (py_int_dec lo Hlo), (py_int_dec hi Hhi). cbn [bind]. rewrite (zrange_ok _ _ _ Hlim).
+      reflexivity.
+Qed.
+
+Lemma mapM_ret {A B} (f : A -> outcome B) (g : A -> B) l :
+  Forall (fun x => f x = Ret (g x)) l -> mapM f l = Ret (map g l).
+Proof.
+  induction l as [|x l IH]; intros F; [reflexivity|]. inversion F; subst. cbn [mapM map].
+  rewrite H1. cbn [bind]. rewrite (IH H2). reflexivity.
+Qed.
+
+Lemma mapM_map_ret {A B C} (f : B -> outcome C) (r : A -> B) (g : A -> C) l :
+  Forall (fun a => f (r a) = Ret (g a)) l -> mapM f (map r l) = Ret (map g l).
+Proof.
+  induction l as [|x l IH]; intros F; [reflexivity|]. inversion F; subst. cbn [mapM map].
+  rewrite H1. cbn [bind]. rewrite (IH H2). reflexivity.
+Qed.
+
+Lemma render_item_no c limit it : item_ok limit it ->
+  (c = ch_comma \/ c = ch_slash) -> contains c (render_item it) = false.
+Proof.
+  intros Ok Hc. assert (Dc : b2z c < 48 \/ 57 < b2z c) by (destruct Hc as [->| ->]; vm_compute; intuition congruence).
+  destruct it as [raw h|lo hi h]; cbn [item_ok render_item] in *.
+  - destruct Ok as (Hh & [S1 S2] & _ & Hl). rewrite contains_app.
+    replace (contains c raw) with false by (destruct Hc as [->| ->]; symmetry; assumption). cbn [orb].
+    destruct h as [x|]; [|reflexivity]. cbn [hard_suffix contains]. destruct Hl as [L1 L2].
+    destruct Hc as [->| ->]; [rewrite L1|rewrite L2]; reflexivity.
+  - destruct Ok as (Hh & Hlo & Hhi & _).
+    destruct (py_dec_digits lo Hlo) as [_ Flo]. destruct (py_dec_digits hi Hhi) as [_ Fhi].
+    rewrite contains_app, (digits_contains c _ Dc Flo). cbn [orb contains].
+    replace (byte_eqb ch_minus c) with false by (destruct Hc as [->| ->]; reflexivity). cbn [orb].
+    rewrite contains_app, (digits_contains c _ Dc Fhi). cbn [orb].
+    destruct h as [x|]; [|reflexivity]. cbn [hard_suffix contains hard_ok] in *.
+    destruct (hardening_not_sep x Hh) as (H1 & H2 & _). destruct Hc as [->| ->]; [rewrite H1|rewrite H2]; reflexivity.
+Qed.
+
+Lemma range_iterator_ok limit comp : comp <> [] -> Forall (item_ok limit) comp ->
+  range_iterator limit (render_component comp) = Ret (expand_component comp) /\
+  contains ch_slash (render_component comp) = false.
+Proof.
+  intros NE F. unfold range_iterator, render_component, expand_component. split.
+  - rewrite split_join.
+    + rewrite (mapM_map_ret _ _ expand_item).
+      * reflexivity.
+      * eapply Forall_impl; [|exact F]. intros it Ok. apply range_item_ok. exact Ok.
+    + destruct comp; [contradiction|discriminate].
+    + apply Forall_map. eapply Forall_impl; [|exact F]. intros it Ok. apply (render_item_no _ limit); auto.
+  - apply contains_join; [reflexivity|]. apply Forall_map. eapply Forall_impl; [|exact F].
+    intros it Ok. apply (render_item_no _ limit); auto.
+Qed.
+
+Lemma subpaths_product limit comps :
+  comps <> [] -> Forall (fun comp => comp <> [] /\ Forall (item_ok limit) comp) comps -> render_range comps <> [] ->
+  subpaths_for_path_range limit (render_range comps) =
+  Ret (map (join ch_slash) (product (map expand_component comps))).
+Proof.
+  intros NE F NR. unfold subpaths_for_path_range. destruct (render_range comps) as [|b s] eqn:E; [contradiction|].
+  rewrite <- E. unfold render_range. rewrite split_join.
+  - rewrite (mapM_map_ret _ _ expand_component).
+    + reflexivity.
+    + eapply Forall_impl; [|exact F]. intros comp [N Fi]. apply (range_iterator_ok limit comp N Fi).
+  - destruct comps; [contradiction|discriminate].
+  - apply Forall_map. eapply Forall_impl; [|exact F]. intros comp [N Fi]. apply (range_iterator_ok limit comp N Fi).
+Qed.
+
+(* the product really is the set of all choices, in lexicographic order: characterised by membership and length *)
+Lemma in_product {A} (ls : list (list A)) (t : list A) :
+  In t (product ls) <-> Forall2 (fun x l => In x l) t ls.
+Proof.
+  revert t. induction ls as [|l ls IH]; intros t; cbn [product].
+  - split; [intros [<-|[]]; constructor|intros H; inversion H; left; reflexivity].
+  - rewrite in_flat_map. split.
+    + intros (x & Hx & Ht). apply in_map_iff in Ht. destruct Ht as (t' & <- & Ht'). constructor; [exact Hx|]. apply IH. exact Ht'.
+    + intros H. inversion H as [|x ? t' ? Hx Ht']; subst. exists x. split; [exact Hx|]. apply in_map. apply IH. exact Ht'.
+Qed.
+
+Lemma product_length {A} (ls : list (list A)) :
+  length (product ls) = fold_right (fun l n => (length l * n)%nat) 1%nat ls.
+Proof.
+  induction ls as [|l ls IH]; [reflexivity|]. cbn [product fold_right]. rewrite <- IH. clear IH.
+  induction l as [|x l IHl]; [reflexivity|]. cbn [flat_map]. rewrite app_length, map_length, IHl. reflexivity.
+Qed.
+
+Lemma zrange_list_spec lo hi t : In t (zrange_list lo hi) <-> lo <= t <= hi.
+Proof.
+  unfold zrange_list. remember (Z.to_nat (hi + 1 - lo)) as n eqn:En.
+  assert (G : forall n lo, In t (zrange_aux n lo) <-> lo <= t < lo + Z.of_nat n).
+  { clear. induction n as [|n IH]; intros lo; cbn [zrange_aux In]; [lia|]. rewrite IH. lia. }
+  rewrite G. lia.
 Qed.
